@@ -60,8 +60,8 @@ var pieces = []string{"function", "class", "if", "else", "while", "for", "in", "
 	"(", ")", "{", "}", "[", "]", ",", ";", ":", "::", "..", ".", "?", "@", "#", "#(", "#{", "#[", "#20200101", "#abc", "=", "==", "=~", "!~", "!=", "!", "<", "<=", "<>", ">", ">=", "<<", ">>", "<<=", ">>=",
 	"+", "-", "*", "/", "%", "$", "&", "|", "^", "~", "+=", "-=", "*=", "/=", "%=", "$=", "&=", "|=", "^=", "++", "--", "|>", "=>",
 	"0", "1", "12.5", ".5", "1.", "1e5", "1e", "1e+", "0x", "0xff", "0x_1", "1_000", "1__0", "_1", "1_", "99999999999999999999", "1e999", "0377",
-	`"`, `'`, "`", `"abc"`, `'a'`, "`r`", `"a\"b"`, `"\x41"`, `"\x4`, `"\`, "//", "/*", "*/", "/* c */", "// c\n", "\n", "\r\n", " ", "\t", "\x00", "\xff", "\x80", "\\",
-	"{|", "|", "{|x|", "{|@a|", "@+1", "function(", "function(){", "class{", "Base{", "a:", "b: 1", "New(", "CallClass(", "getter_x", "Getter_", ".x", ".X", "a.b", "a[", "a[1..", "a[::2]",
+	`"`, `'`, "`", `""`, `"":`, `'': 1`, `"abc"`, `'a'`, "`r`", `"a\"b"`, `"\x41"`, `"\x4`, `"\`, "//", "/*", "*/", "/* c */", "// c\n", "\n", "\r\n", " ", "\t", "\x00", "\xff", "\x80", "\\",
+	"{|", "|", "{|x|", "{|@a|", "@+1", "function(", "function(){", "class{", "Base{", "a:", "b: 1", "New(", "CallClass(", "getter_x", "Getter_", "getter_", ".getter_", ".getter_x", ".Getter_", "getter_()", "Getter_X", "_x", "x_", ".x", ".X", "a.b", "a[", "a[1..", "a[::2]",
 	"where", "join", "by", "union", "sort", "project", "extend", "rename", "to", "summarize", "count", "total", "into", "insert", "update", "set", "delete", "create", "key", "index", "tbl", "tbl2", "view", "drop", "ensure", "alter"}
 
 func genSoup(r *rand.Rand) string {
@@ -223,6 +223,12 @@ func genInput(r *rand.Rand) input {
 		}
 		return input{"query-mutated", mutate(r, q)}
 	case x < 10:
+		switch r.IntN(3) {
+		case 0: // members and method bodies of a class: names are privatised, getters and New are special there
+			return input{"soup-in-class", "class\n{\n" + genSoup(r) + "\nF(a)\n{\n" + genSoup(r) + "\n}\n}"}
+		case 1:
+			return input{"soup-in-class", "Base\n{\nF()\n{\n" + genSoup(r) + "\n}\n" + genSoup(r) + "\n}"}
+		}
 		return input{"soup-in-function", "function (a, b) {\n" + genSoup(r) + "\n}"}
 	case x < 11:
 		s := []string{"1" + strings.Repeat("0", r.IntN(400)), "1e" + strings.Repeat("9", 1+r.IntN(30)), "0x" + strings.Repeat("f", r.IntN(40)), "." + strings.Repeat("0", r.IntN(400)) + "1",
